@@ -99,6 +99,7 @@ class FnSplice:
         self.lineno = lineno
         self.spec = None
         self.loops = {}      # n -> (binder, text)
+        self.loop_headers = {}   # n -> header token text (the loop is found by its header, not by its ordinal)
         self.ats = []        # (anchor, text)
         self.outlines = []   # (kind, label, anchor_text, with_text)
         self.id = opts.get("id") or ((container.replace("impl ", "").replace(" for ", ":") + "::" if container != "-" else "") + name)
@@ -206,11 +207,17 @@ class Generator:
                     cur_fn.spec = buf
                     cur_sink = buf
                 elif word == "loop":
+                    hdr = None
+                    if "|" in rest:
+                        rest, hdr = rest.split("|", 1)
+                        hdr = hdr.strip()
                     ps = rest.split()
                     n = int(ps[0])
                     binder = ps[1] if len(ps) > 1 else None
                     buf = []
                     cur_fn.loops[n] = (binder, buf)
+                    if hdr:
+                        cur_fn.loop_headers[n] = hdr
                     cur_sink = buf
                 elif word == "at":
                     buf = []
@@ -465,7 +472,33 @@ class Generator:
                             break
                         q += 1
                 loop_info[n] = dict(kw=k, open=j, close=sf.match[j], in_idx=in_idx)
+            # loops named by their header text are located by that text (robust against reordering; a loop
+            # that was deleted or whose header changed is simply left without invariant: what follows decides)
+            if f.loop_headers:
+                by_ord = dict(loop_info)
+                remapped = {}
+                for n, hdr in f.loop_headers.items():
+                    want = norm(hdr)
+                    found = None
+                    for m, li in by_ord.items():
+                        htxt = " ".join(t.text for t in toks[li["kw"]:li["open"]])
+                        if htxt == want:
+                            found = li
+                            break
+                    remapped[n] = found
+                for n in list(loop_info):
+                    if n in f.loop_headers:
+                        del loop_info[n]
+                for n, li in remapped.items():
+                    if li is not None:
+                        loop_info[n] = li
+                    else:
+                        u.extraction.append("fn %s: loop #%d `%s` NOT FOUND in the current tree; its invariant and proof hints are not spliced" % (fid, n, f.loop_headers[n]))
+                        u.missing_outlines.append("%s/loop#%d" % (fid, n))
+                # ordinals without a header keep their ordinal meaning among the remaining loops
             for n, (binder, buf) in f.loops.items():
+                if n in f.loop_headers and n not in loop_info:
+                    continue
                 if n not in loop_info:
                     raise LostAnchor("fn %s: loop #%d not found (body has %d loops)" % (fid, n, len(loop_info)))
                 li = loop_info[n]
@@ -490,6 +523,9 @@ class Generator:
             # --- anchors
             for anchor, buf in f.ats:
                 txt = "\n".join(buf)
+                ml = re.match(r"^loop:(\d+):", anchor)
+                if ml and int(ml.group(1)) in f.loop_headers and int(ml.group(1)) not in loop_info:
+                    continue
                 nobl["asserts"] += len(re.findall(r"\bassert\b", txt))
                 pos = self._anchor_pos(sf, hit, loop_info, anchor, fid)
                 rk, wrapped = self._region(u, "proof", fid, anchor, "\n" + txt.rstrip() + "\n")
